@@ -299,6 +299,12 @@ func (x *Exec) specEval(c *SpecCtx, e *Expr) (*Val, error) {
 		return x.specIndex(c, b, i, e)
 	case "call":
 		return x.specCall(c, e)
+	case "let":
+		v, err := x.specEval(c, e.Args[0])
+		if err != nil {
+			return nil, err
+		}
+		return x.specEval(c.with(map[string]*Val{e.Name: v}), e.Args[1])
 	case "forall", "exists":
 		vars := map[string]*Val{}
 		var bound []*Term
@@ -342,6 +348,9 @@ func (x *Exec) specEval(c *SpecCtx, e *Expr) (*Val, error) {
 		}
 		_ = facts
 		if e.Kind == "forall" {
+			if len(pats) == 0 {
+				pats = inferPatterns(bound, body)
+			}
 			return boolVal(tForall(bound, body, pats...)), nil
 		}
 		return boolVal(tExists(bound, body)), nil
@@ -785,4 +794,91 @@ func (x *Exec) specBinary(c *SpecCtx, e *Expr) (*Val, error) {
 		return scalar(tArith(op, p, q), a.Typ), nil
 	}
 	return nil, fmt.Errorf("unknown operator %s", op)
+}
+
+
+// inferPatterns picks E-matching triggers: selects (or uninterpreted applications) whose index is exactly a
+// bound variable and whose array does not mention bound variables. Each candidate is an alternative
+// single-term pattern when there is one bound variable; with several variables one multi-pattern is built.
+func inferPatterns(bound []*Term, body *Term) [][]*Term {
+	isBound := map[string]bool{}
+	for _, b := range bound {
+		isBound[b.Op] = true
+	}
+	var mentions func(t *Term) bool
+	memo := map[*Term]bool{}
+	mentions = func(t *Term) bool {
+		if v, ok := memo[t]; ok {
+			return v
+		}
+		r := false
+		if len(t.Args) == 0 && len(t.Bound) == 0 {
+			r = isBound[t.Op]
+		}
+		for _, a := range t.Args {
+			if mentions(a) {
+				r = true
+			}
+		}
+		memo[t] = r
+		return r
+	}
+	cands := map[string][]*Term{}
+	seen := map[string]bool{}
+	var walk func(t *Term)
+	walk = func(t *Term) {
+		if len(t.Bound) > 0 {
+			return // do not look inside nested quantifiers
+		}
+		if t.Op == "select" && len(t.Args) == 2 && len(t.Args[1].Args) == 0 && isBound[t.Args[1].Op] && !mentions(t.Args[0]) {
+			k := t.String()
+			if !seen[k] {
+				seen[k] = true
+				cands[t.Args[1].Op] = append(cands[t.Args[1].Op], t)
+			}
+		}
+		if strings.HasPrefix(t.Op, "uf.") || strings.HasPrefix(t.Op, "card.") || t.Op == "strlen" {
+			// uninterpreted application with bound variables as direct arguments only
+			ok := false
+			var which string
+			for _, a := range t.Args {
+				if len(a.Args) == 0 && isBound[a.Op] {
+					ok = true
+					which = a.Op
+				} else if mentions(a) {
+					ok = false
+					break
+				}
+			}
+			if ok {
+				k := t.String()
+				if !seen[k] {
+					seen[k] = true
+					cands[which] = append(cands[which], t)
+				}
+			}
+		}
+		for _, a := range t.Args {
+			walk(a)
+		}
+	}
+	walk(body)
+	if len(bound) == 1 {
+		var out [][]*Term
+		for _, c := range cands[bound[0].Op] {
+			out = append(out, []*Term{c})
+			if len(out) >= 4 {
+				break
+			}
+		}
+		return out
+	}
+	var multi []*Term
+	for _, b := range bound {
+		if len(cands[b.Op]) == 0 {
+			return nil
+		}
+		multi = append(multi, cands[b.Op][0])
+	}
+	return [][]*Term{multi}
 }
